@@ -33,6 +33,9 @@ func (s *Site) Events() []Event {
 	switch s.Kind {
 	case "imm.assign", "imm.assignparen", "imm.tuple", "imm.nested":
 		ev = append(ev, Event{Cat: "IMM", Code: "IMM01", Type: s.Type, Field: s.Field})
+	case "imm.tuple2":
+		ev = append(ev, Event{Cat: "IMM", Code: "IMM01", Type: s.Type, Field: s.Field})
+		ev = append(ev, Event{Cat: "IMM", Code: "IMM01", Type: s.Type, Field: s.Field2})
 	case "imm.compound":
 		ev = append(ev, Event{Cat: "IMM", Code: "IMM02", Type: s.Type, Field: s.Field})
 	case "imm.incdec":
@@ -63,6 +66,10 @@ func (s *Site) Events() []Event {
 		mention("other")
 	case "var", "var2":
 		ev = append(ev, Event{Cat: "CTOR", Code: "CTOR03", Type: s.Type})
+		if s.Kind == "var2" {
+			// two names, two zero-initialised instances
+			ev = append(ev, Event{Cat: "CTOR", Code: "CTOR03", Type: s.Type})
+		}
 		mention("var")
 	case "varptr", "varblank":
 		mention("var")
@@ -91,19 +98,24 @@ func (s *Site) Events() []Event {
 
 // Expect is the oracle's verdict per site id.
 type Expect struct {
-	Must  map[int]map[string]bool // required (site, code)
-	May   map[int]map[string]bool // tolerated: shape the property leaves open
-	OneOf [][]SiteCode            // exactly one member of each group must be reported
+	Must   map[int]map[string]bool // required (site, code)
+	Counts map[int]map[string]int  // how many diagnostics with that code the site must carry (tuple / multi-name statements)
+	May    map[int]map[string]bool // tolerated: shape the property leaves open
+	OneOf  [][]SiteCode            // exactly one member of each group must be reported
 }
 
 func newExpect() *Expect {
-	return &Expect{Must: map[int]map[string]bool{}, May: map[int]map[string]bool{}}
+	return &Expect{Must: map[int]map[string]bool{}, May: map[int]map[string]bool{}, Counts: map[int]map[string]int{}}
 }
 func (e *Expect) must(id int, code string) {
 	if e.Must[id] == nil {
 		e.Must[id] = map[string]bool{}
 	}
 	e.Must[id][code] = true
+	if e.Counts[id] == nil {
+		e.Counts[id] = map[string]int{}
+	}
+	e.Counts[id][code]++
 }
 func (e *Expect) may(id int, code string) {
 	if e.May[id] == nil {
@@ -292,16 +304,18 @@ func (m Mismatch) String() string {
 	return fmt.Sprintf("%s %s at %s (s%d)", m.Kind, m.Code, m.Where, m.Site)
 }
 
-// SiteDiags maps diagnostics with one of the code prefixes to site ids.
-// Diagnostics on untagged lines are returned as stray.
-func SiteDiags(p *Prog, diags []engine.Diag, prefixes ...string) (bySite map[int]map[string]bool, stray []engine.Diag) {
-	bySite = map[int]map[string]bool{}
+// SiteDiags maps diagnostics with one of the code prefixes to site ids,
+// counting distinct positions (the same diagnostic reported for several
+// package variants counts once). Diagnostics on untagged lines are stray.
+func SiteDiags(p *Prog, diags []engine.Diag, prefixes ...string) (bySite map[int]map[string]int, stray []engine.Diag) {
+	bySite = map[int]map[string]int{}
 	files := map[string]*File{}
 	for _, pkg := range p.Pkgs {
 		for _, f := range pkg.Files {
 			files[pkg.Dir+"/"+f.Name] = f
 		}
 	}
+	seen := map[string]bool{}
 	for _, d := range diags {
 		ok := len(prefixes) == 0
 		for _, pre := range prefixes {
@@ -312,19 +326,24 @@ func SiteDiags(p *Prog, diags []engine.Diag, prefixes ...string) (bySite map[int
 		if !ok {
 			continue
 		}
+		uk := fmt.Sprintf("%s:%d:%d:%s:%s", d.File, d.Line, d.Col, d.Code, d.Message)
+		if seen[uk] {
+			continue
+		}
+		seen[uk] = true
 		f := files[d.File]
 		id := 0
 		if f != nil {
-			id = TagAt(f.Lines, d.Line)
+			id = TagAtCol(f.Lines, d.Line, d.Col)
 		}
 		if id == 0 {
 			stray = append(stray, d)
 			continue
 		}
 		if bySite[id] == nil {
-			bySite[id] = map[string]bool{}
+			bySite[id] = map[string]int{}
 		}
-		bySite[id][d.Code] = true
+		bySite[id][d.Code]++
 	}
 	return
 }
@@ -339,8 +358,13 @@ func Compare(p *Prog, diags []engine.Diag, e *Expect, prefixes ...string) []Mism
 	})
 	for id, codes := range e.Must {
 		for c := range codes {
-			if !got[id][c] {
+			switch n, want := got[id][c], e.Counts[id][c]; {
+			case n == 0:
 				out = append(out, Mismatch{Site: id, Code: c, Kind: "missing", Where: where[id]})
+			case n < want:
+				out = append(out, Mismatch{Site: id, Code: c, Kind: fmt.Sprintf("reported %d times instead of %d:", n, want), Where: where[id]})
+			case n > want:
+				out = append(out, Mismatch{Site: id, Code: c, Kind: fmt.Sprintf("reported %d times instead of %d:", n, want), Where: where[id]})
 			}
 		}
 	}
@@ -349,9 +373,7 @@ func Compare(p *Prog, diags []engine.Diag, e *Expect, prefixes ...string) []Mism
 		n := 0
 		for _, sc := range grp {
 			inGroup[sc] = true
-			if got[sc.Site][sc.Code] {
-				n++
-			}
+			n += got[sc.Site][sc.Code]
 		}
 		if n != 1 {
 			out = append(out, Mismatch{Site: grp[0].Site, Code: grp[0].Code, Kind: fmt.Sprintf("once-per-file group reported %d times (want 1):", n), Where: where[grp[0].Site]})
